@@ -1171,3 +1171,211 @@ Proof.
   rewrite physical_fst in *. apply prune_preserves_deps; [assumption | assumption |].
   now apply (C09_stale_source_after_deps p c es e ce e2 c2).
 Qed.
+
+(** * Part C: non-vacuity.  A 5-node plan: source literal 0 -> stored call 1 -> unstored call 2 -> stored
+    call 3, a plain Dependency 1 -> 3, and a dependent stale source 4 with an unregistered predecessor (2),
+    a stale stored predecessor processed after it (1, Dependency) and one processed before it (3, keyword
+    argument).  Registry order: 3, 0, 4, 1; entry 0 is an up-to-date source, the others are stale. *)
+Definition ex_p : pgraph := {|
+  pnodes := [0; 1; 2; 3; 4];
+  pkind := fun n => match n with 0 => KLit | _ => KCall end;
+  pedges := [ mke 0 1 (KPos 0); mke 1 2 (KPos 0); mke 2 3 (KPos 0); mke 1 3 KDep;
+              mke 2 4 KDep; mke 1 4 KDep; mke 3 4 (KKw 0 0) ] |}.
+Definition ex_e3 : entry := {| enode := 3; esource := false; estale := true |}.
+Definition ex_e0 : entry := {| enode := 0; esource := true; estale := false |}.
+Definition ex_e4 : entry := {| enode := 4; esource := true; estale := true |}.
+Definition ex_e1 : entry := {| enode := 1; esource := false; estale := true |}.
+Definition ex_es : list entry := [ex_e3; ex_e0; ex_e4; ex_e1].
+Definition ex_q : pgraph := add_all ex_p 5 ex_es.
+
+Example ex_entry_ids : entry_ids 5 ex_es = [(ex_e3, 5); (ex_e0, 8); (ex_e4, 10); (ex_e1, 13)].
+Proof. reflexivity. Qed.
+
+(** boolean duplicate check, to establish [NoDup] of concrete lists by computation *)
+Fixpoint nodupb {A} (eqb : A -> A -> bool) (l : list A) : bool :=
+  match l with
+  | [] => true
+  | a :: t => negb (existsb (eqb a) t) && nodupb eqb t
+  end.
+
+Lemma nodupb_NoDup {A} (eqb : A -> A -> bool) (l : list A) :
+  (forall a b, eqb a b = true <-> a = b) -> nodupb eqb l = true -> NoDup l.
+Proof.
+  intros Heq. induction l as [|a t IH]; intros H; [constructor|].
+  cbn in H. apply andb_true_iff in H. destruct H as [H1 H2]. constructor; [|now apply IH].
+  intros Hin. apply negb_true_iff in H1. assert (H : existsb (eqb a) t = true); [|congruence].
+  apply existsb_exists. exists a. split; [assumption | now apply Heq].
+Qed.
+
+(** the hypotheses of every theorem above are satisfiable *)
+Example ex_tctx : tctx ex_p 5 ex_es.
+Proof.
+  split; [|split; [|split]].
+  - split; [|split].
+    + apply (nodupb_NoDup Nat.eqb); [apply Nat.eqb_eq | reflexivity].
+    + apply (nodupb_NoDup kedge_eqb); [apply kedge_eqb_eq | reflexivity].
+    + intros e He. cbn in He. cbn [ex_p pnodes].
+      repeat (destruct He as [<- | He]; [cbn; split; auto 10|]). contradiction.
+  - intros n Hn. cbn in Hn. repeat (destruct Hn as [<- | Hn]; [lia|]). contradiction.
+  - apply (nodupb_NoDup Nat.eqb); [apply Nat.eqb_eq | reflexivity].
+  - intros e He. cbn in He. repeat (destruct He as [<- | He]; [cbn; auto 10|]). contradiction.
+Qed.
+
+Example ex_acyclic : acyclic (to_graph ex_p).
+Proof.
+  exists (fun n => n). intros a b H. cbn in H.
+  repeat (destruct H as [H | H]; [inversion H; subst; lia|]). contradiction.
+Qed.
+
+(** the transformed plan, computed by the model *)
+Example ex_q_nodes : pnodes ex_q = [0; 1; 2; 3; 4; 5; 6; 7; 8; 9; 10; 11; 12; 13; 14; 15].
+Proof. vm_compute. reflexivity. Qed.
+
+Example ex_q_edges :
+  pedges ex_q =
+  [ mke 2 3 (KPos 0); mke 2 4 KDep;
+    (* entry 3 (ids 5 6 7): literal -> read, literal/value -> write, write -> read, consumer 4 on read *)
+    mke 5 6 (KPos 0); mke 5 7 (KPos 0); mke 3 7 (KPos 1); mke 7 6 KDep; mke 6 4 (KKw 0 0);
+    (* entry 0 (ids 8 9; up to date: no write): consumer 1 on read *)
+    mke 8 9 (KPos 0); mke 9 1 (KPos 0);
+    (* entry 4 (ids 10 11 12; stale source): Barrier 12 after 2 and after read 6 of entry 3 *)
+    mke 10 11 (KPos 0); mke 2 12 KDep; mke 6 12 KDep; mke 12 11 KDep;
+    (* entry 1 (ids 13 14 15): consumer 2 on read 14, Dep successors 3, 4 and Barrier 12 on write 15 *)
+    mke 13 14 (KPos 0); mke 13 15 (KPos 0); mke 1 15 (KPos 1); mke 15 14 KDep; mke 14 2 (KPos 0);
+    mke 15 3 KDep; mke 15 4 KDep; mke 15 12 KDep ].
+Proof. vm_compute. reflexivity. Qed.
+
+(** instances of the theorems (obtained FROM the theorems, so their premises hold on this plan) *)
+Example ex_B1 :
+  In (mke 13 14 (KPos 0)) (pedges ex_q) /\ In (mke 15 14 KDep) (pedges ex_q) /\
+  In (mke 1 15 (KPos 1)) (pedges ex_q) /\ In (mke 13 15 (KPos 0)) (pedges ex_q).
+Proof.
+  assert (Hin : In (ex_e1, 13) (entry_ids 5 ex_es)) by (cbn; auto).
+  destruct (C09_write_then_read ex_p 5 ex_es ex_e1 13 ex_tctx Hin) as [H1 [H2 H3]].
+  destruct (H3 eq_refl eq_refl) as [H4 H5].
+  exact (conj H1 (conj (H2 eq_refl) (conj H4 H5))).
+Qed.
+
+Example ex_B2 : In (mke 14 2 (KPos 0)) (pedges ex_q) /\ ~ In (mke 1 2 (KPos 0)) (pedges ex_q).
+Proof.
+  apply (C09_consumers_on_read ex_p 5 ex_es ex_e1 13 2 (KPos 0) ex_tctx); [cbn; auto | cbn; auto | discriminate].
+Qed.
+
+Example ex_B2_unregistered : In (mke 2 3 (KPos 0)) (pedges ex_q).
+Proof.
+  apply (C09_unregistered_edges_kept ex_p 5 ex_es _ ex_tctx); [cbn; auto | cbn; intuition lia].
+Qed.
+
+Example ex_B3 : In (mke 15 3 KDep) (pedges ex_q) /\ ~ In (mke 1 3 KDep) (pedges ex_q).
+Proof.
+  assert (Hin : In (ex_e1, 13) (entry_ids 5 ex_es)) by (cbn; auto).
+  assert (Hx : In (mke (enode ex_e1) 3 KDep) (pedges ex_p)) by (cbn; auto).
+  destruct (C09_dependents_on_write ex_p 5 ex_es ex_e1 13 3 ex_tctx Hin Hx) as [H1 [H2 _]].
+  split; [exact (H2 eq_refl) | exact H1].
+Qed.
+
+Example ex_B4 :
+  In (mke 12 11 KDep) (pedges ex_q) /\ In (mke 2 12 KDep) (pedges ex_q) /\
+  reach (to_graph ex_q) 15 12 /\ reach (to_graph ex_q) 7 12.
+Proof.
+  assert (Hin : In (ex_e4, 10) (entry_ids 5 ex_es)) by (cbn; auto).
+  assert (Hp2 : edge (to_graph ex_p) 2 (enode ex_e4)) by (cbn; auto 10).
+  assert (Hp1 : edge (to_graph ex_p) 1 (enode ex_e4)) by (cbn; auto 10).
+  assert (Hp3 : edge (to_graph ex_p) 3 (enode ex_e4)) by (cbn; auto 10).
+  assert (Hno : ~ In 2 (map enode ex_es)) by (cbn; intuition lia).
+  assert (Hin1 : In (ex_e1, 13) (entry_ids 5 ex_es)) by (cbn; auto).
+  assert (Hin3 : In (ex_e3, 5) (entry_ids 5 ex_es)) by (cbn; auto).
+  assert (Hne1 : 1 <> enode ex_e4) by (cbn; lia).
+  assert (Hne3 : 3 <> enode ex_e4) by (cbn; lia).
+  destruct (C09_stale_source_barrier ex_p 5 ex_es ex_e4 10 ex_tctx Hin eq_refl eq_refl) as [H1 H2].
+  destruct (H2 2 Hp2) as [Hun _]. destruct (Hun Hno) as [Hedge _].
+  destruct (H2 1 Hp1) as [_ Hreg1]. destruct (H2 3 Hp3) as [_ Hreg3].
+  exact (conj H1 (conj Hedge (conj (Hreg1 ex_e1 13 Hin1 eq_refl eq_refl Hne1)
+                                   (Hreg3 ex_e3 5 Hin3 eq_refl eq_refl Hne3)))).
+Qed.
+
+Example ex_B5 : pgraph_wf ex_q /\ acyclic (to_graph ex_q).
+Proof.
+  split; [apply transform_wf, ex_tctx | apply transform_acyclic; [apply ex_tctx | apply ex_acyclic]].
+Qed.
+
+(** the physical plan for output = the stale source 4: the output is redirected to its read node 11, the
+    Barrier 12 is elided into 2 -> 11, 6 -> 11, 15 -> 11, the up-to-date source 0 and the node 4 are pruned *)
+Example ex_physical_nodes :
+  pnodes (fst (physical ex_p 5 ex_es (Some 4))) = [1; 2; 3; 5; 6; 7; 8; 9; 10; 11; 13; 14; 15]
+  /\ snd (physical ex_p 5 ex_es (Some 4)) = Some 11.
+Proof. vm_compute. split; reflexivity. Qed.
+
+Example ex_physical_edges :
+  pedges (fst (physical ex_p 5 ex_es (Some 4))) =
+  [ mke 2 3 (KPos 0); mke 5 6 (KPos 0); mke 5 7 (KPos 0); mke 3 7 (KPos 1); mke 7 6 KDep;
+    mke 8 9 (KPos 0); mke 9 1 (KPos 0); mke 10 11 (KPos 0);
+    mke 13 14 (KPos 0); mke 13 15 (KPos 0); mke 1 15 (KPos 1); mke 15 14 KDep; mke 14 2 (KPos 0);
+    mke 15 3 KDep; mke 2 11 KDep; mke 6 11 KDep; mke 15 11 KDep ].
+Proof. vm_compute. reflexivity. Qed.
+
+Example ex_B6 :
+  let r := fst (physical ex_p 5 ex_es (Some 4)) in
+  In (mke 14 2 (KPos 0)) (pedges r) /\ reach (to_graph r) 1 15 /\ reach (to_graph r) 15 14 /\
+  reach (to_graph r) 14 2.
+Proof.
+  assert (Hin : In (ex_e1, 13) (entry_ids 5 ex_es)) by (cbn; auto).
+  assert (Hx : In (mke (enode ex_e1) 2 (KPos 0)) (pedges ex_p)) by (cbn; auto).
+  assert (Hk : KPos 0 <> KDep) by discriminate.
+  assert (Hs : In 2 (pnodes (fst (physical ex_p 5 ex_es (Some 4))))).
+  { destruct ex_physical_nodes as [-> _]. cbn. auto. }
+  destruct (C09_consumer_in_physical_plan ex_p 5 ex_es (Some 4) ex_e1 13 2 (KPos 0) ex_tctx Hin Hx Hk Hs)
+    as [H1 [_ [_ H4]]].
+  destruct (H4 eq_refl eq_refl) as [_ [H5 [H6 H7]]].
+  exact (conj H1 (conj H5 (conj H6 H7))).
+Qed.
+
+Example ex_B6_source :
+  reach (to_graph (fst (physical ex_p 5 ex_es (Some 4)))) 2 11 /\
+  reach (to_graph (fst (physical ex_p 5 ex_es (Some 4)))) 15 11.
+Proof.
+  assert (Hin : In (ex_e4, 10) (entry_ids 5 ex_es)) by (cbn; auto).
+  assert (Hin1 : In (ex_e1, 13) (entry_ids 5 ex_es)) by (cbn; auto).
+  assert (Hp2 : edge (to_graph ex_p) 2 (enode ex_e4)) by (cbn; auto 10).
+  assert (Hp1 : edge (to_graph ex_p) (enode ex_e1) (enode ex_e4)) by (cbn; auto 10).
+  assert (Hno : ~ In 2 (map enode ex_es)) by (cbn; intuition lia).
+  assert (Hm : In 2 [1; 2; 3; 5; 6; 7; 8; 9; 10; 11; 13; 14; 15] /\
+               In 11 [1; 2; 3; 5; 6; 7; 8; 9; 10; 11; 13; 14; 15]) by (cbn; auto 20).
+  destruct Hm as [Hm2 Hm11].
+  destruct ex_physical_nodes as [Hnodes _]. rewrite <- Hnodes in Hm2, Hm11. clear Hnodes.
+  exact (conj
+    (C09_stale_source_order_in_physical ex_p 5 ex_es (Some 4) ex_e4 10 2 ex_tctx Hin eq_refl eq_refl
+       Hp2 Hno Hm2 Hm11)
+    (C09_stale_source_after_writes_in_physical ex_p 5 ex_es (Some 4) ex_e4 10 ex_e1 13
+       ex_tctx ex_acyclic Hin eq_refl eq_refl Hin1 eq_refl eq_refl Hp1 Hm11)).
+Qed.
+
+(** Part A on the same plan: one step for the stale source 4 wires the Barrier (id 7) to the three
+    predecessors 2, 1, 3 of node 4 and to the read node 6 *)
+Example ex_sctx : sctx ex_p 5 ex_e4.
+Proof.
+  destruct ex_tctx as [Hwf [Hc [_ Hn]]].
+  refine (conj Hwf (conj Hc (Hn ex_e4 _))). cbn. auto.
+Qed.
+
+Example ex_step_edges :
+  pedges (add_value_store ex_p 5 ex_e4) =
+  [ mke 0 1 (KPos 0); mke 1 2 (KPos 0); mke 2 3 (KPos 0); mke 1 3 KDep; mke 2 4 KDep; mke 1 4 KDep;
+    mke 3 4 (KKw 0 0); mke 5 6 (KPos 0); mke 2 7 KDep; mke 1 7 KDep; mke 3 7 KDep; mke 7 6 KDep ].
+Proof. vm_compute. reflexivity. Qed.
+
+Example ex_step_barrier : In (mke 3 7 KDep) (pedges (add_value_store ex_p 5 ex_e4)).
+Proof.
+  apply (add_value_store_edges ex_p 5 ex_e4 _ ex_sctx).
+  apply (AE_barrier ex_p 5 ex_e4 3); [reflexivity | reflexivity | cbn; auto 10].
+Qed.
+
+(** the converse on the example: the only argument edge into the original node 2 comes from the read node
+    of entry 1 *)
+Example ex_B2_converse :
+  forall x, In x (pedges ex_q) -> edst x = 2 -> ekind x <> KDep -> x = mke 14 2 (KPos 0).
+Proof.
+  intros x Hx Hd Hk. rewrite ex_q_edges in Hx. cbn in Hx.
+  repeat (destruct Hx as [<- | Hx]; [try reflexivity; try discriminate Hd; try (now contradiction Hk)|]).
+  contradiction.
+Qed.
